@@ -37,9 +37,10 @@ def classes():
             world = None
 
         class T0(Agent):
-            def __init__(self, model, x=0):
+            def __init__(self, model, x=0, y=None):
                 super().__init__(model)
                 self.x = x
+                self.y = y
                 self.aid = model.world.new_aid(self)
 
             def act(self, arg):
@@ -56,6 +57,36 @@ def classes():
 
         _CLASSES = (WModel, [T0, T1, T2, T3], AgentSet)
     return _CLASSES
+
+
+def fmt_val(v):
+    """what an agent's constructor received: an int, or a whole sequence (list / tuple / ndarray)"""
+    if isinstance(v, (int,)) or type(v).__module__ == "numpy" and getattr(v, "ndim", 1) == 0:
+        return str(int(v))
+    return "[" + ".".join(str(int(e)) for e in v) + "]"
+
+
+def fmt_payload(x, y):
+    return fmt_val(x) + ("" if y is None else "/" + fmt_val(y))
+
+
+def parse_arg(tok):
+    """`s:<v>` -> int, `l:<v1,..>` -> list of ints"""
+    kind, _, vals = tok.partition(":")
+    if kind == "s":
+        return int(vals)
+    return [int(v) for v in vals.split(",")] if vals != "-" else []
+
+
+def as_sequence(xs, form):
+    """glue: the same per-agent values as a list, a tuple or a numpy array"""
+    if form % 3 == 0:
+        return list(xs)
+    if form % 3 == 1:
+        return tuple(xs)
+    import numpy as np
+
+    return np.array(xs, dtype=int)
 
 
 def parse_script(rest):
@@ -82,7 +113,7 @@ class WorldImpl:
         self.wr.append(weakref.ref(agent, lambda r, aid=aid: tr.append(("dead", aid))))
         m = self.models.index(agent.model)
         ty = self.CLS.index(type(agent))
-        self.info.append((m, ty, agent.unique_id, agent.x))
+        self.info.append((m, ty, agent.unique_id, fmt_payload(agent.x, agent.y)))
         if self.pending_hold:
             self.held[aid] = agent
         tr.append(("create", aid, m, ty, agent.unique_id, self.pending_hold))
@@ -220,19 +251,32 @@ class WorldImpl:
             return self.ok("new=" + self.fmt_new(n0))
         if k == "createn":
             m, ty, h, n = map(int, w[1:5])
-            kind, _, vals = w[5].partition(":")
+            args = [parse_arg(t) for t in w[5:]]
+            if len(args) not in (1, 2):
+                return "bad-op"
             n0 = len(self.wr)
-            if kind == "s":
-                self.create(m, ty, h, [int(vals)] * n, scalar=int(vals))
-            else:
-                xs = [int(v) for v in vals.split(",")] if vals != "-" else []
-                assert len(xs) == n
-                self.pending_hold = bool(h)
-                try:  # always the per-agent (sequence) form, also for n == 1; alternate list/tuple
-                    self.CLS[ty].create_agents(self.models[m], n, tuple(xs) if n % 2 else list(xs))
-                finally:
-                    self.pending_hold = False
+            # glue: sequences travel as list / tuple / ndarray, the arguments positionally or by keyword
+            form = n + len(w[5])
+            vals = [a if isinstance(a, int) else as_sequence(a, form + i) for i, a in enumerate(args)]
+            self.pending_hold = bool(h)
+            try:
+                cls, model = self.CLS[ty], self.models[m]
+                if len(vals) == 1:
+                    cls.create_agents(model, n, vals[0]) if form % 2 else cls.create_agents(model, n, x=vals[0])
+                elif form % 2:
+                    cls.create_agents(model, n, vals[0], vals[1])
+                else:
+                    cls.create_agents(model, n, vals[0], y=vals[1])
+            finally:
+                self.pending_hold = False
             return self.ok("new=" + self.fmt_new(n0))
+        if k == "setagents":
+            model = self.models[int(w[1])]
+            try:
+                model.agents = []
+            except AttributeError:
+                return "err Attr"
+            return self.ok("assigned")
         if k == "remove":
             self.remove(int(w[1]))
             return self.ok()
@@ -407,10 +451,16 @@ def gen_world(R, flavor="c04", size=None):
             if R.random() < 0.6:
                 return f"create {m} {R.randrange(NTYPES)} {hold()} {R.randrange(-3, 9)}"
             n = R.choice([0, 1, 2, 3, 4])
-            if R.random() < 0.5:
-                return f"createn {m} {R.randrange(NTYPES)} {hold()} {n} s:{R.randrange(-3, 9)}"
-            xs = ",".join(str(R.randrange(-3, 9)) for _ in range(n)) or "-"
-            return f"createn {m} {R.randrange(NTYPES)} {hold()} {n} l:{xs}"
+
+            def an_arg():
+                if R.random() < 0.4:
+                    return f"s:{R.randrange(-3, 9)}"
+                # a per-agent sequence (length n) or a sequence of another length, which every agent receives whole
+                k = n if R.random() < 0.6 else R.choice([0, 1, 2, 3, 5])
+                return "l:" + (",".join(str(R.randrange(-3, 9)) for _ in range(k)) or "-")
+
+            args = an_arg() + (" " + an_arg() if R.random() < 0.35 else "")
+            return f"createn {m} {R.randrange(NTYPES)} {hold()} {n} {args}"
 
         for _ in range(R.randrange(1, 7) if flavor == "c04" else R.randrange(0, 5)):
             emit(create_line())
@@ -438,7 +488,7 @@ def gen_world(R, flavor="c04", size=None):
                 if R.random() < 0.25:
                     emit(f"remove {a}")  # idempotence
             elif op == "removeall":
-                emit(f"removeall {R.randrange(nm)}")
+                emit(f"removeall {R.randrange(nm)}" if R.random() < 0.7 else f"setagents {R.randrange(nm)}")
             elif op == "unhold":
                 emit(f"unhold {an_agent()}")
             elif op == "reorder":
@@ -527,10 +577,24 @@ def oracle_c02(sc, obs):
     seen_ty = []  # per model: classes that ever had an agent (agent_types may keep emptied ones)
     uids = []     # per model: uids handed out, in creation order
     prev = None
-    for line, events, st in split_ops(tr):
+    for (line, events, st), o in zip(split_ops(tr), list(obs[1:]) + [""] * len(tr)):
         w = line.split()
         touched = set()
         removed_again = False
+        if w[0] == "createn" and o.startswith("ok"):
+            # create_agents(model, n, *args): n agents; the i-th receives arg[i] of a sequence of length n, and any
+            # other argument (a single object, a sequence of another length) as it is
+            n = int(w[4])
+            args = [parse_arg(t) for t in w[5:]]
+            want = ["/".join(str(a) if isinstance(a, int) else str(a[i]) if len(a) == n else "[" + ".".join(map(str, a)) + "]"
+                             for a in args) for i in range(n)]
+            got = [e.split(":")[2] for e in o.split(" || ")[0][len("ok new="):].split(",") if e]
+            if got != want:
+                bad.append(f"createn: `{line}` handed the constructors {got}, expected {want}")
+            if len([e for e in events if e[0] == "create"]) != n:
+                bad.append(f"createn: `{line}` created {len([e for e in events if e[0] == 'create'])} agents")
+        if w[0] == "setagents" and not o.startswith("err Attr"):
+            bad.append(f"setagents: assigning model.agents was not rejected (`{o.split(' || ')[0]}`)")
         for ev in events:
             if ev[0] == "create":
                 _, aid, m, ty, uid, _h = ev
@@ -753,6 +817,12 @@ def world_tags(sc, obs):
                 if len(inv) < len(call[3]):
                     yield "branch:member-skipped"
                 yield "target:" + call[2].split(":")[0]
+        if w[0] == "createn":
+            n = int(w[4])
+            for t in w[5:]:
+                yield "createn:" + ("single-object" if t[0] == "s" else "split" if len(parse_arg(t)) == n else "whole-sequence")
+            if len(w) > 6:
+                yield "createn:two-arguments"
         if w[0] == "remove" and "remove" in kinds and "dead" not in kinds:
             yield "branch:removed-but-held-or-already-removed"
         if w[0] == "remove" and "remove" not in kinds:
